@@ -1,9 +1,11 @@
 (* C15 — dynamics follow their equations; the NLS linearisation is exact at the reference point.
-   Statements only; proofs in Proofs/Dynamics.v, model in Model/Dynamics.v. *)
+   Statements only; proofs in Proofs/Dynamics.v, Proofs/Dynamics2.v (histories of any shape, reference
+   point after several set_refpoint, Jacobian entries), Proofs/Dynamics3.v (explicit, direction-uniform
+   second-order constant); model in Model/Dynamics.v. *)
 From Coq Require Import Reals ZArith List Bool.
 From Coquelicot Require Import Coquelicot.
 Import ListNotations.
-From PV Require Import Base.Num Model.Dynamics Proofs.Dynamics.
+From PV Require Import Base.Num Model.Dynamics Proofs.Dynamics Proofs.Dynamics2 Proofs.Dynamics3.
 #[local] Remove Hints NumQ NumZ : typeclass_instances.
 
 (* ---------------------------------------------------------------- the time counter
@@ -140,6 +142,278 @@ Theorem C15_nls_default_t_old_refuted :
                 out <> nls_lin_l fs gs x u (IZR (n_t st)).
 Proof. exact nls_default_t_old_refuted. Qed.
 
+(* ================================================================== second part (Proofs/Dynamics2.v, Proofs/Dynamics3.v)
+
+   ---------------------------------------------------------------- per-operation clauses and the trace
+   a call advances the time by exactly one; reset / systime assignment set it; direct calls and reads
+   keep it; set_refpoint assigns it only on LTV with t given - for every kind of system *)
+Theorem C15_step_clauses : forall (k : kind) (t v : Z) (ot : option Z),
+  step_time k t Call = Some (t + 1)%Z /\ step_time k t Direct = Some t /\
+  step_time k t (Reset v) = Some v /\ step_time k t (SetTime v) = Some v /\
+  step_time k t (SetRef ot) = Some (match k, ot with KLTV, Some w => w | _, _ => t end).
+Proof.
+  intros. split; [apply step_call|]. split; [apply step_direct|]. split; [apply step_reset|].
+  split; [apply step_settime|apply step_setref].
+Qed.
+(* entry n of the time trace (what the tie compares with the real object after every operation) is the
+   time after the first n+1 operations - to which C15_time_after_ops applies - and nothing raised *)
+Theorem C15_time_trace_entry : forall (k : kind) (ops : list op) (t : Z) (n : nat) (d : Z * bool),
+  (n < length ops)%nat -> nth n (time_trace k t ops) d = (run_time k t (firstn (S n) ops), false).
+Proof. exact time_trace_nth. Qed.
+
+(* ---------------------------------------------------------------- LTV / LTI: histories of ANY shape
+   a call made after ANY operations [pre] (calls, direct calls, resets, time assignments, set_refpoint)
+   applies the matrices of the time reached by [pre] (by C15_time_after_ops: last assigned value +
+   calls since) to the state reached by [pre], ends at that time + 1 and returns next state ++
+   observation; whatever follows ([post]) does not matter for this entry of the trace *)
+Theorem C15_ltv_history_call : forall (s : ltv (F:=R)) (t0 : Z) (x0 : list R) (pre : list (lop (F:=R)))
+    (u : list R) (post : list (lop (F:=R))) (d : Z * bool * list R),
+  let t := run_time KLTV t0 (map lop_erase pre) in
+  let x := snd (ltv_run s (t0, x0) pre) in
+  let m := ltv_at s t in
+  ltv_run s (t0, x0) (pre ++ [LCall u]) = ((t + 1)%Z, lti_next m x u) /\
+  nth (length pre) (ltv_trace s (t0, x0) (pre ++ LCall u :: post)) d =
+    ((t + 1)%Z, false, lti_next m x u ++ lti_obs m x u).
+Proof. exact ltv_history_call. Qed.
+(* forward / state_transition / observation called directly: same matrices, time and state untouched *)
+Theorem C15_ltv_history_direct : forall (s : ltv (F:=R)) (t0 : Z) (x0 : list R) (pre : list (lop (F:=R)))
+    (u : list R) (post : list (lop (F:=R))) (d : Z * bool * list R),
+  let t := run_time KLTV t0 (map lop_erase pre) in
+  let x := snd (ltv_run s (t0, x0) pre) in
+  let m := ltv_at s t in
+  ltv_run s (t0, x0) (pre ++ [LDirect u]) = (t, x) /\
+  nth (length pre) (ltv_trace s (t0, x0) (pre ++ LDirect u :: post)) d =
+    (t, false, lti_next m x u ++ lti_obs m x u).
+Proof. exact ltv_history_direct. Qed.
+(* the state a call is applied to is the result of the most recent call (or the initial state): resets,
+   time assignments, set_refpoint and direct calls never change it *)
+Theorem C15_ltv_state_is_last_call : forall (s : ltv (F:=R)) (t0 : Z) (x0 : list R) (ops : list (lop (F:=R))),
+  ((forall o, In o ops -> lop_is_call o = false) /\ snd (ltv_run s (t0, x0) ops) = x0) \/
+  (exists pre u post, ops = pre ++ LCall u :: post /\ (forall o, In o post -> lop_is_call o = false) /\
+     snd (ltv_run s (t0, x0) ops) =
+       lti_next (ltv_at s (run_time KLTV t0 (map lop_erase pre))) (snd (ltv_run s (t0, x0) pre)) u).
+Proof. exact ltv_state_is_last_call. Qed.
+(* the matrices depend on the time modulo the period only; period 1 = LTI: in every history every
+   call applies the same A, B, C, D, c1, c2 *)
+Theorem C15_ltv_periodic : forall (s : ltv (F:=R)) (t k : Z),
+  ltv_at s (t + k * vT s)%Z = ltv_at s t /\ ltv_at s (t mod vT s)%Z = ltv_at s t.
+Proof. intros. split; [apply ltv_at_periodic|apply ltv_at_mod]. Qed.
+Theorem C15_lti_history_call : forall (s : ltv (F:=R)) (t0 : Z) (x0 : list R) (pre : list (lop (F:=R)))
+    (u : list R) (post : list (lop (F:=R))) (d : Z * bool * list R),
+  vT s = 1%Z ->
+  let x := snd (ltv_run s (t0, x0) pre) in
+  let m := ltv_at s 0 in
+  nth (length pre) (ltv_trace s (t0, x0) (pre ++ LCall u :: post)) d =
+    ((run_time KLTV t0 (map lop_erase pre) + 1)%Z, false, lti_next m x u ++ lti_obs m x u).
+Proof. exact lti_history_call. Qed.
+(* guard against the totalised [nth]: with a positive period and T stacked matrices (what the docstring's
+   subclass needs for `_A[..., _t % T, :, :]` not to raise) the selected index is always in range, for
+   negative times too (torch remainder = Z.modulo: -t selects T - t); so no theorem above reads a default
+   matrix on such a system.  Periods T <= 0 are outside the model (torch raises / indexes from the end). *)
+Theorem C15_ltv_index_in_range : forall (s : ltv (F:=R)) (t : Z), ltv_wf s ->
+  let i := tidx (vT s) t in
+  (i < length (vA s))%nat /\ (i < length (vB s))%nat /\ (i < length (vC s))%nat /\ (i < length (vD s))%nat /\
+  (forall c, vc1 s = Some c -> (i < length c)%nat) /\ (forall c, vc2 s = Some c -> (i < length c)%nat).
+Proof. exact ltv_wf_index. Qed.
+Theorem C15_ltv_negative_time : forall T t : Z, (0 < T)%Z -> (0 < t <= T)%Z -> tidx T (- t) = Z.to_nat (T - t).
+Proof. exact tidx_negative. Qed.
+Example C15_ltv_wf_example :
+  ltv_wf {| vT := 2; vA := [[[1]]; [[2]]]; vB := [[[1]]; [[0]]]; vC := [[[1]]; [[1]]]; vD := [[[0]]; [[0]]];
+            vc1 := Some [[1]; [0]]; vc2 := None |}%R.
+Proof. exact ltv_wf_example. Qed.
+(* shapes (guard against the truncating vadd): next state has one entry per row of A, the observation
+   one per row of C; lti_wf is satisfiable *)
+Theorem C15_lti_shapes : forall (s : lti (F:=R)) (x u : list R), lti_wf s ->
+  length (lti_next s x u) = length (sA s) /\ length (lti_obs s x u) = length (sC s).
+Proof. exact lti_shapes. Qed.
+(* [dot] (a row of bmv) is the finite sum of products when the lengths agree - the shape the real code
+   insists on; on other shapes the model's dot truncates where torch raises *)
+Theorem C15_dot_is_sum : forall (a b : list R), length a = length b ->
+  dot a b = fold_right Rplus 0%R (map (fun p => (fst p * snd p)%R) (combine a b)).
+Proof. exact dot_as_sum. Qed.
+Example C15_lti_wf_example :
+  lti_wf {| sA := [[1; 2]; [0; 1]]; sB := [[1]; [0]]; sC := [[1; 0]]; sD := [[0]]; sc1 := Some [1; 1]; sc2 := None |}%R.
+Proof. exact lti_wf_example. Qed.
+
+(* ---------------------------------------------------------------- NLS: histories of ANY shape
+   system(x, u) after ANY operations [pre] returns f and g evaluated at (x, u, time reached by pre),
+   ends at that time + 1 and remembers (x, u) as the most recent state / input *)
+Theorem C15_nls_history_call : forall (fs gs : list (fexpr (F:=R))) (st : nst (F:=R)) (pre : list (nop (F:=R)))
+    (x u : list R) (post : list (nop (F:=R))) (d : Z * bool * list R),
+  let t := run_time KNLS (n_t st) (map nop_erase pre) in
+  nth (length pre) (nls_trace fs gs st (pre ++ NCall x u :: post)) d =
+    ((t + 1)%Z, false, evals fs x u (IZR t) ++ evals gs x u (IZR t)) /\
+  n_last (nls_run fs gs st (pre ++ [NCall x u])) = Some (x, u) /\
+  n_t (nls_run fs gs st (pre ++ [NCall x u])) = (t + 1)%Z.
+Proof. exact nls_history_call. Qed.
+(* every entry of the trace the tie compares is the step taken from the state reached by the prefix *)
+Theorem C15_nls_trace_entry : forall (fs gs : list (fexpr (F:=R))) (pre : list (nop (F:=R))) (st : nst (F:=R))
+    (o : nop (F:=R)) (post : list (nop (F:=R))) (d : Z * bool * list R),
+  nth (length pre) (nls_trace fs gs st (pre ++ o :: post)) d =
+    match nls_step fs gs (nls_run fs gs st pre) o with
+    | Some (st', out) => (n_t st', false, out)
+    | None => (n_t (nls_run fs gs st pre), true, [])
+    end.
+Proof. exact nls_trace_nth. Qed.
+
+(* "the most recent state / input" that set_refpoint() defaults to: those of the last call of the
+   history, whatever resets, time assignments, reads, direct calls or set_refpoint came after it *)
+Theorem C15_nls_last_is_last_call : forall (fs gs : list (fexpr (F:=R))) (st : nst (F:=R)) (ops : list (nop (F:=R))),
+  ((forall o, In o ops -> nop_is_call o = false) /\ n_last (nls_run fs gs st ops) = n_last st) \/
+  (exists pre x u post, ops = pre ++ NCall x u :: post /\ (forall o, In o post -> nop_is_call o = false) /\
+     n_last (nls_run fs gs st ops) = Some (x, u)).
+Proof. exact nls_last_is_last_call. Qed.
+
+(* invariant of EVERY history from a fresh system - any number of set_refpoint, raising ones included:
+   a read of A, B, C, D, c1, c2 that does not raise changes nothing and returns the linearisation at ONE
+   stored point (x, u, tr): Jacobians and offsets never belong to different points or times *)
+Theorem C15_nls_read_always_consistent : forall (fs gs : list (fexpr (F:=R))) (t0 : Z) (ops : list (nop (F:=R))),
+  let st := nls_run fs gs (nst_init t0) ops in
+  forall st' out, nls_step fs gs st NRead = Some (st', out) ->
+    st' = st /\ exists x u tr, n_ref st = Some {| r_x := x; r_u := u; r_t := TFixed tr;
+                                                  r_f := evals fs x u tr; r_g := evals gs x u tr |} /\
+                               out = nls_lin_l fs gs x u tr.
+Proof. exact nls_read_always_consistent. Qed.
+(* when the operations raise: a read iff no set_refpoint has succeeded; set_refpoint iff the state or
+   the input is left to default and no call was made yet *)
+Theorem C15_nls_raises_iff : forall (fs gs : list (fexpr (F:=R))) (st : nst (F:=R)) ox ou (ot : option R),
+  (nls_step fs gs st NRead = None <-> n_ref st = None) /\
+  (nls_step fs gs st (NSetRef ox ou ot) = None <-> ((ox = None \/ ou = None) /\ n_last st = None)).
+Proof. intros. split; [apply nls_read_raises_iff|apply nls_setref_raises_iff]. Qed.
+(* set_refpoint(x, u, t) that does not raise, then ANY history in which no later set_refpoint succeeds
+   ([quiet]: raising ones may occur): the read is the linearisation at (x, u, t).  Generalises
+   C15_nls_read_after_setref (no_setref implies quiet) *)
+Theorem C15_nls_read_last_setref : forall (fs gs : list (fexpr (F:=R))) (st : nst (F:=R)) ox ou (ot : option R) x u post,
+  ref_arg ox (option_map fst (n_last st)) = Some x ->
+  ref_arg ou (option_map snd (n_last st)) = Some u ->
+  let st1 := nls_step' fs gs st (NSetRef ox ou ot) in
+  quiet fs gs st1 post ->
+  let st2 := nls_run fs gs st1 post in
+  nls_step fs gs st2 NRead = Some (st2, nls_lin_l fs gs x u (ref_time st ot)).
+Proof. exact nls_read_last_setref. Qed.
+Theorem C15_no_setref_quiet : forall (fs gs : list (fexpr (F:=R))) post st, no_setref post -> quiet fs gs st post.
+Proof. exact no_setref_quiet. Qed.
+(* ... and EVERY history from a fresh system has one of the two shapes: either no set_refpoint has
+   succeeded and the read raises, or there is a last one that succeeded and the read is the
+   linearisation at its point - state / input given or those of the most recent call before it, t*
+   given or the system time when it ran (= last assigned value + calls since, C15_time_after_ops) *)
+Theorem C15_nls_read_any_history : forall (fs gs : list (fexpr (F:=R))) (t0 : Z) (ops : list (nop (F:=R))),
+  let st2 := nls_run fs gs (nst_init t0) ops in
+  (quiet fs gs (nst_init t0) ops /\ nls_step fs gs st2 NRead = None) \/
+  (exists pre ox ou ot post x u,
+     ops = pre ++ NSetRef ox ou ot :: post /\
+     let stp := nls_run fs gs (nst_init t0) pre in
+     ref_arg ox (option_map fst (n_last stp)) = Some x /\
+     ref_arg ou (option_map snd (n_last stp)) = Some u /\
+     quiet fs gs (nls_step' fs gs stp (NSetRef ox ou ot)) post /\
+     nls_step fs gs st2 NRead =
+       Some (st2, nls_lin_l fs gs x u
+                    (match ot with Some v => v
+                                 | None => IZR (run_time KNLS t0 (map nop_erase pre)) end))).
+Proof. exact nls_read_any_history. Qed.
+(* non-vacuity: reference taken from the last call, then reset, call, time assignment, read; and a
+   raising set_refpoint in the tail is possible *)
+Example C15_nls_read_example :
+  let fs := [EMul ET (ESin (EX 0))] in let gs := [EAdd (EX 0) (EU 0)] in
+  let ops := [NCall [1] [2]; NSetRef None None None; NReset 7; NCall [3] [4]; NSetTime 0; NRead]%R in
+  let st2 := nls_run fs gs (nst_init 5) ops in
+  nls_step fs gs st2 NRead = Some (st2, nls_lin_l fs gs [1] [2] 6)%R /\ n_t st2 = 0%Z.
+Proof. exact nls_read_example. Qed.
+Example C15_quiet_example :
+  let fs := [EX 0] in let gs := [EX 0] in
+  quiet fs gs (nls_step' fs gs (nst_init 0) (NSetRef (Some [1]) (Some [2]) None)) [NSetRef None None (Some 3)]%R.
+Proof. exact quiet_example. Qed.
+
+(* ---------------------------------------------------------------- A, B, C, D ARE the partial Jacobians
+   what a read returns: A, B, C, D row-major (C, D: the same functions of the observation gs), c1, c2 *)
+Theorem C15_nls_read_layout : forall (fs gs : list (fexpr (F:=R))) (x u : list R) (t : R),
+  nls_lin_l fs gs x u t =
+    concat (nls_A fs x u t) ++ concat (nls_B fs x u t) ++ concat (nls_A gs x u t) ++ concat (nls_B gs x u t) ++
+    nls_c (evals fs x u t) (nls_A fs x u t) (nls_B fs x u t) x u ++
+    nls_c (evals gs x u t) (nls_A gs x u t) (nls_B gs x u t) x u.
+Proof. exact nls_lin_l_unfold. Qed.
+(* shapes: one row per component of f (g), one column per state (input) component *)
+Theorem C15_nls_shapes : forall (fs : list (fexpr (F:=R))) (x u : list R) (t : R),
+  (length (nls_A fs x u t) = length fs /\
+   forall i, (i < length fs)%nat -> length (nth i (nls_A fs x u t) []) = length x) /\
+  (length (nls_B fs x u t) = length fs /\
+   forall i, (i < length fs)%nat -> length (nth i (nls_B fs x u t) []) = length u).
+Proof. intros. split; [apply nls_A_shape|apply nls_B_shape]. Qed.
+(* entry (i, j) of A (of C, taking gs for fs) is the derivative of component i of f (g) as a function
+   of the j-th state component alone, at the reference point; entry (i, j) of B (D) likewise for the
+   j-th input component - every tree, every point, every dimension *)
+Theorem C15_nls_A_is_jacobian : forall (fs : list (fexpr (F:=R))) (x u : list R) (t : R) (i j : nat),
+  (i < length fs)%nat -> (j < length x)%nat ->
+  is_derive (fun s => nth i (evals fs (upd x j s) u t) 0%R) (nth j x 0%R) (nth j (nth i (nls_A fs x u t) []) 0%R).
+Proof. exact nls_A_is_jacobian. Qed.
+Theorem C15_nls_B_is_jacobian : forall (fs : list (fexpr (F:=R))) (x u : list R) (t : R) (i j : nat),
+  (i < length fs)%nat -> (j < length u)%nat ->
+  is_derive (fun s => nth i (evals fs x (upd u j s) t) 0%R) (nth j u 0%R) (nth j (nth i (nls_B fs x u t) []) 0%R).
+Proof. exact nls_B_is_jacobian. Qed.
+
+(* ---------------------------------------------------------------- second order in the DISTANCE
+   one constant for all directions, computed from the tree (B0, B1, B2 of Proofs/Dynamics3.v bound the
+   value, the gradient and the Hessian on the box of radius boxr x u rho = |x|_1 + |u|_1 + rho): at every
+   point (x + dx, u + du) within l1-distance rho of the reference point, every component of
+   A (x+dx) + B (u+du) + c1 differs from f(x+dx, u+du, t) by at most B2 * distance^2 / 2 *)
+Theorem C15_nls_second_order_uniform : forall (fs : list (fexpr (F:=R))) (x u : list R) (t rho : R) (i : nat) (dx du : list R),
+  (i < length fs)%nat -> (0 <= rho)%R ->
+  length dx = length x -> length du = length u -> (norm1 dx + norm1 du <= rho)%R ->
+  (Rabs (nth i (evals fs (vadd x dx) (vadd u du) t) 0 - nth i (affine_model fs x u t (vadd x dx) (vadd u du)) 0)
+    <= B2 (nth i fs ET) (boxr x u rho) t * (norm1 dx + norm1 du) ^ 2 / 2)%R.
+Proof. exact nls_second_order_uniform. Qed.
+(* hence A, B are the Frechet derivative of f at the reference point (remainder o(distance)) *)
+Theorem C15_nls_frechet : forall (fs : list (fexpr (F:=R))) (x u : list R) (t : R) (i : nat), (i < length fs)%nat ->
+  forall eps, (0 < eps)%R -> exists delta, (0 < delta)%R /\
+    forall dx du, length dx = length x -> length du = length u -> (norm1 dx + norm1 du <= delta)%R ->
+      (Rabs (nth i (evals fs (vadd x dx) (vadd u du) t) 0 - nth i (affine_model fs x u t (vadd x dx) (vadd u du)) 0)
+        <= eps * (norm1 dx + norm1 du))%R.
+Proof. exact nls_frechet. Qed.
+(* first order: f itself moves by at most B1 * distance, and every entry of the Jacobian at the
+   displaced point differs from the entry of A (B) read at the reference point by at most B2 * distance *)
+Theorem C15_nls_first_order_uniform : forall (fs : list (fexpr (F:=R))) (x u : list R) (t rho : R) (i : nat) (dx du : list R),
+  (i < length fs)%nat -> (0 <= rho)%R ->
+  length dx = length x -> length du = length u -> (norm1 dx + norm1 du <= rho)%R ->
+  (Rabs (nth i (evals fs (vadd x dx) (vadd u du) t) 0 - nth i (evals fs x u t) 0)
+    <= B1 (nth i fs ET) (boxr x u rho) t * (norm1 dx + norm1 du))%R.
+Proof. exact nls_first_order_uniform. Qed.
+Theorem C15_nls_jacobian_drift : forall (e : fexpr (F:=R)) (x u : list R) (t rho : R) (dx du : list R),
+  (0 <= rho)%R -> length dx = length x -> length du = length u -> (norm1 dx + norm1 du <= rho)%R ->
+  (forall j, (j < length x)%nat ->
+     (Rabs (eval (deriv e (VX j)) (vadd x dx) (vadd u du) t - eval (deriv e (VX j)) x u t)
+       <= B2 e (boxr x u rho) t * (norm1 dx + norm1 du))%R) /\
+  (forall j, (j < length u)%nat ->
+     (Rabs (eval (deriv e (VU j)) (vadd x dx) (vadd u du) t - eval (deriv e (VU j)) x u t)
+       <= B2 e (boxr x u rho) t * (norm1 dx + norm1 du))%R).
+Proof.
+  intros e x u t rho dx du Hr HLx HLu HN. split; intros j Hj.
+  - now apply nls_jacobian_drift_x.
+  - now apply nls_jacobian_drift_u.
+Qed.
+(* the hypothesis of C15_nls_second_order (a bound M of the second directional derivative on the
+   segment) always holds with the explicit M = B2 * distance^2: that theorem is never vacuous *)
+Theorem C15_d2_bound_explicit : forall (e : fexpr (F:=R)) (x u : list R) (t rho : R) (dx du : list R),
+  (0 <= rho)%R -> length dx = length x -> length du = length u -> (norm1 dx + norm1 du <= rho)%R ->
+  forall r, (Rmin 0 1 <= r <= Rmax 0 1)%R ->
+    (Rabs (d2 e (xl x dx r) (xl u du r) dx du t) <= B2 e (boxr x u rho) t * (norm1 dx + norm1 du) ^ 2)%R.
+Proof. exact d2_bound_explicit. Qed.
+(* when the constant vanishes (f affine in (x, u), coefficients may depend on t) the linearisation is
+   exact at every point *)
+Theorem C15_nls_affine_exact : forall (fs : list (fexpr (F:=R))) (x u : list R) (t : R) (i : nat) (dx du : list R),
+  (i < length fs)%nat -> length dx = length x -> length du = length u ->
+  B2 (nth i fs ET) (boxr x u (norm1 dx + norm1 du)) t = 0%R ->
+  nth i (evals fs (vadd x dx) (vadd u du) t) 0%R = nth i (affine_model fs x u t (vadd x dx) (vadd u du)) 0%R.
+Proof. exact nls_affine_exact. Qed.
+(* the constant at work: f = x0 * sin(u0) at x = [2], u = [0], radius 1: B2 = 5; and f = 3 x0 + t u0: exact *)
+Example C15_second_order_uniform_example : forall dx du : R, (Rabs dx + 0 + (Rabs du + 0) <= 1)%R ->
+  (Rabs ((2 + dx) * sin (0 + du) - nth 0 (affine_model [EMul (EX 0) (ESin (EU 0))] [2] [0] 0 [2 + dx] [0 + du]) 0)
+    <= 5 * (Rabs dx + 0 + (Rabs du + 0)) ^ 2 / 2)%R.
+Proof. exact second_order_uniform_example. Qed.
+Example C15_affine_exact_example : forall x0 u0 t dx du : R,
+  nth 0 (evals [EAdd (EMul (EConst 3) (EX 0)) (EMul ET (EU 0))] [x0 + dx] [u0 + du] t) 0 =
+  nth 0 (affine_model [EAdd (EMul (EConst 3) (EX 0)) (EMul ET (EU 0))] [x0] [u0] t [x0 + dx] [u0 + du]) 0.
+Proof. exact affine_exact_example. Qed.
+
 Print Assumptions C15_time_after_ops. Print Assumptions C15_ltv_time_is_counter.
 Print Assumptions C15_nls_time_is_counter. Print Assumptions C15_ops_do_not_raise.
 Print Assumptions C15_ltv_setref_default_keeps_time. Print Assumptions C15_ltv_setref_default_old_refuted.
@@ -150,3 +424,20 @@ Print Assumptions C15_deriv_correct_u. Print Assumptions C15_deriv_along_line.
 Print Assumptions C15_nls_affine_reproduces. Print Assumptions C15_nls_second_order.
 Print Assumptions C15_nls_second_order_exists. Print Assumptions C15_second_order_example.
 Print Assumptions C15_nls_read_after_setref. Print Assumptions C15_nls_default_t_old_refuted.
+Print Assumptions C15_step_clauses. Print Assumptions C15_time_trace_entry.
+Print Assumptions C15_ltv_history_call. Print Assumptions C15_ltv_history_direct.
+Print Assumptions C15_ltv_state_is_last_call. Print Assumptions C15_ltv_periodic.
+Print Assumptions C15_lti_history_call. Print Assumptions C15_ltv_index_in_range.
+Print Assumptions C15_ltv_negative_time. Print Assumptions C15_ltv_wf_example.
+Print Assumptions C15_lti_shapes. Print Assumptions C15_lti_wf_example.
+Print Assumptions C15_nls_history_call. Print Assumptions C15_nls_trace_entry.
+Print Assumptions C15_nls_read_always_consistent. Print Assumptions C15_nls_raises_iff.
+Print Assumptions C15_nls_read_last_setref. Print Assumptions C15_no_setref_quiet.
+Print Assumptions C15_nls_read_any_history. Print Assumptions C15_nls_read_example.
+Print Assumptions C15_quiet_example. Print Assumptions C15_nls_read_layout.
+Print Assumptions C15_nls_shapes. Print Assumptions C15_nls_A_is_jacobian. Print Assumptions C15_nls_B_is_jacobian.
+Print Assumptions C15_nls_second_order_uniform. Print Assumptions C15_nls_frechet.
+Print Assumptions C15_nls_first_order_uniform. Print Assumptions C15_nls_jacobian_drift.
+Print Assumptions C15_d2_bound_explicit. Print Assumptions C15_nls_affine_exact.
+Print Assumptions C15_second_order_uniform_example. Print Assumptions C15_affine_exact_example.
+Print Assumptions C15_nls_last_is_last_call. Print Assumptions C15_dot_is_sum.
